@@ -230,6 +230,25 @@ pub fn corpus() -> Vec<Case> {
     let mut k = keys_of(" \u{a0}\u{2003}");
     k.extend([Enter, Char('a'), Enter, Char('a'), Enter, Up, Up, Down, Down, Down]);
     v.push(Case { hist: vec![], keys: k });
+    // the history stores a line unless it is EXACTLY the previous one: consecutive lines that are
+    // equal only up to letter case, a trailing blank, Unicode case or normalisation are both kept,
+    // and recalling them gives back each as it was typed
+    for (l1, l2) in [
+        ("ab", "AB"), ("print Msg", "print msg"), ("a", "a "), (" a", "a"), ("é", "É"), ("ß", "SS"), ("é", "e\u{301}"),
+        ("ǆ", "ǅ"), ("x1", "X1"), ("a;b", "A;b"),
+    ] {
+        let mut k = keys_of(l1);
+        k.push(Enter);
+        k.extend(keys_of(l2));
+        k.extend([Enter, Up, Enter, Up, Up, Enter, Up, Up, Up, Enter]);
+        v.push(Case { hist: vec![], keys: k });
+        let mut k = keys_of(l2);
+        k.extend([Enter, Up, Enter, Up, Up, Enter]);
+        v.push(Case { hist: vec![s(l1)], keys: k });
+        let mut k = keys_of(l1);
+        k.extend([Enter, Up, Up, Enter]);
+        v.push(Case { hist: vec![s(l2), s(l1)], keys: k });
+    }
     // control characters are ignored
     v.push(Case { hist: vec![s("ab c")], keys: vec![Char('\u{1}'), Char('\u{7f}'), Char('\u{1f}'), Up, Char('\u{0}'), Char('\u{80}'), Enter] });
     v
